@@ -744,29 +744,30 @@ def stdin_script(rnd):
         else:
             if "\n" in t:
                 t = t.replace("\n", " ")
-            data += t.encode() + (b"" if (last and rnd.random() < 0.3) else b"\n")
+            # (an empty last line without a newline is no line at all: always terminate it)
+            data += t.encode() + (b"" if (last and t != "" and rnd.random() < 0.3) else b"\n")
             desc.append(hexs(t))
     return data, desc
 
 
-def modelled_case(rnd):
-    sub = rnd.choice(["color", "lighten", "darken", "saturate", "desaturate", "rotate", "complement", "to-gray", "textcolor",
-                      "colorblind", "set", "format", "mix", "color", "format", "set"])
+def modelled_case(rnd, subs=None):
+    sub = rnd.choice(subs or ["color", "lighten", "darken", "saturate", "desaturate", "rotate", "complement", "to-gray", "textcolor",
+                              "colorblind", "set", "format", "mix", "color", "format", "set"])
     if sub in ("lighten", "darken", "saturate", "desaturate"):
         cargs = [number_text(rnd, 0, 1)]
     elif sub == "rotate":
         cargs = [number_text(rnd, 0, 720)]
     elif sub == "colorblind":
-        cargs = [rnd.choice(["prot", "deuter", "trit", "PROT", "Deuter"])]
+        cargs = [rnd.choice(["prot", "deuter", "trit", "PROT", "Deuter", "tRIT", "Trit", "dEUTER"])]
     elif sub == "set":
         p = rnd.choice(SET_PROPS)
-        cargs = [rnd.choice([p, p.upper()]), number_text(rnd, 0, 255 if p in ("red", "green", "blue") else 1)]
+        cargs = [rnd.choice([p, p.upper(), p.title(), p.swapcase()]), number_text(rnd, 0, 255 if p in ("red", "green", "blue") else 1)]
     elif sub == "format":
         t = rnd.choice(FORMAT_TYPES)
-        cargs = [rnd.choice([t, t, t.upper()])]
+        cargs = [rnd.choice([t, t, t.upper(), t.title()])]
     elif sub == "mix":
         base = rnd.choice([rand_color_text(rnd), rand_color_text(rnd), bad_color_text(rnd), "-"])
-        cargs = [base, number_text(rnd, 0, 1), rnd.choice(["Lab", "LCh", "RGB", "HSL", "OkLab", "lab", "rgb", "oklab"])]
+        cargs = [base, number_text(rnd, 0, 1), rnd.choice(["Lab", "LCh", "RGB", "HSL", "OkLab", "lab", "rgb", "oklab", "Rgb", "LCH", "hSL", "OKLAB", "lch", "LAB"])]
     else:
         cargs = []
     ncol = rnd.choice([0, 0, 1, 1, 2, 3, 6])
@@ -793,6 +794,34 @@ def modelled_case(rnd):
                                          " ".join(hexs(c) for c in colors), len(desc), " ".join(desc))
     op = " ".join(op.split())
     return argv, data, op
+
+
+def modelled_family(res, rnd, subs, n):
+    """Random invocations of the given subcommands (random amounts incl. overshoot and malformed numbers,
+    option values in any letter case, colours as arguments / `-` / stdin lines incl. bad and non-UTF-8
+    ones): exit status, stdout bytes, error class and message must equal the Lean model's."""
+    ops, meta = [], []
+    for _ in range(n):
+        argv, data, op = modelled_case(rnd, subs)
+        if argv is None:
+            continue
+        rc, out, err = run_cli(argv, stdin=data)
+        generic_oracle(res, argv, rc, out, err)
+        cls, msg = classify_stderr(err)
+        res.case(op, True)
+        res.tag("modelled:" + argv[0])
+        impl = "ok %d %s %s %s" % (rc, hexs(out), cls or "-", hexs(msg or ""))
+        ops.append(op); meta.append((op, argv, impl))
+    for (op, argv, impl), mo in zip(meta, model_batch(ops)):
+        res.model_op()
+        if mo != impl:
+            def show(x):
+                t = x.split(" ")
+                try:
+                    return "%s %s stdout=%r %s msg=%r" % (t[0], t[1], unhex(t[2])[:300], t[3], unhex(t[4])[:200])
+                except Exception:
+                    return x[:300]
+            res.disagree("%r  [%s]" % (argv, op[:300]), show(impl), show(mo))
 
 
 def strip_sgr(b):
@@ -1073,6 +1102,7 @@ def c09(res, tier, seed, lib):
     """`pastel to-gray` / `pastel textcolor` hand every colour to the library functions: the printed
     gray is achromatic with the input's luminance (within one gray step), grays stay, and the text
     colour is black or white with contrast >= 4.5."""
+    modelled_family(res, random.Random(seed + 77), ['to-gray', 'textcolor'], 80 if tier != "thorough" else 1000)
     rnd = random.Random(seed)
     n = 60 if tier != "thorough" else 1200
     texts = near_gray_texts(rnd, n) + [rand_color_text(rnd) for _ in range(n)] + ["#%02x%02x%02x" % (g, g, g) for g in range(0, 256, 5 if tier != "thorough" else 1)]
@@ -1120,6 +1150,7 @@ def c09(res, tier, seed, lib):
 def c10(res, tier, seed, lib):
     """Alpha through the CLI: every unary transformation and every `set` of a non-alpha property
     prints the input's alpha; alpha is printed exactly when it differs from 1."""
+    modelled_family(res, random.Random(seed + 77), ['lighten', 'darken', 'saturate', 'desaturate', 'rotate', 'complement', 'to-gray', 'colorblind', 'set', 'mix', 'color'], 200 if tier != "thorough" else 3000)
     rnd = random.Random(seed)
     n = 8 if tier != "thorough" else 80
     texts = []
@@ -1173,6 +1204,7 @@ def c10(res, tier, seed, lib):
 def c01(res, tier, seed, lib):
     """The CLI hands every colour string to the parser unchanged: accepted strings print the colour
     the library reads, rejected ones give exit 1 and `Could not parse color '<text>'`."""
+    modelled_family(res, random.Random(seed + 77), ['color', 'format'], 100 if tier != "thorough" else 1500)
     n = 260 if tier != "thorough" else 4000
     ans = harness_query(["c01gen %d %d" % (n, seed)])[0]
     strs = [unhex(x) for x in ans.split(" ")[1].split(",")] if ans.startswith("ok ") else []
@@ -1229,6 +1261,7 @@ def c01(res, tier, seed, lib):
 def c05(res, tier, seed, lib):
     """Extreme numeric arguments on the command line: exit 0/1/2, never a panic, and whatever is
     printed is a colour the parser reads back (hence valid)."""
+    modelled_family(res, random.Random(seed + 77), ['lighten', 'darken', 'saturate', 'desaturate', 'rotate', 'set', 'mix'], 150 if tier != "thorough" else 2000)
     rnd = random.Random(seed)
     amounts = ["1e308", "1e400", "nan", "NaN", "inf", "infinity", "1e-320", "99999999999999999999", "0", "1", "0.5", "360", "720", "1e15"]
     colors = ["red", "black", "white", "gray", "rgba(10,20,30,0.5)", "hsl(359.9999,100%,50%)", "lab(100,127,-128)", "lch(50,200,720)"]
@@ -1261,6 +1294,7 @@ def c05(res, tier, seed, lib):
 def c07(res, tier, seed, lib):
     """`mix --fraction F base colour` weights the base by F: F=1 prints the base, F=0 the colour
     (8-bit operands: exactly), and every line equals the model's mix at fraction 1-F."""
+    modelled_family(res, random.Random(seed + 77), ['mix'], 150 if tier != "thorough" else 2000)
     rnd = random.Random(seed)
     n = 40 if tier != "thorough" else 600
     ops, meta = [], []
@@ -1309,6 +1343,7 @@ FORMAT_TYPES = ["rgb", "rgb-float", "hex", "hsl", "hsl-hue", "hsl-saturation", "
 def c04(res, tier, seed, lib):
     """`pastel format <type>` prints, for each type, the coordinate of that name as the reference
     evaluation (the Lean model) computes it, in the documented precision."""
+    modelled_family(res, random.Random(seed + 77), ['format'], 150 if tier != "thorough" else 2000)
     rnd = random.Random(seed)
     cols = ["#%02x%02x%02x" % (rnd.randrange(256), rnd.randrange(256), rnd.randrange(256)) for _ in range(6 if tier != "thorough" else 80)]
     cols += ["black", "white", "#0b0b0b", "rgba(200,100,50,0.5)", "hsl(300,40%,60%)", "rebeccapurple"]
@@ -1366,6 +1401,7 @@ def c20(res, tier, seed, lib):
     The printed line (hsl, one decimal) is compared with the model's simulation of the same type,
     printed by the model's formatter (exact text), and - as a direct oracle - its 8-bit channels lie
     within 4 steps (print rounding) of the reference evaluation for that type."""
+    modelled_family(res, random.Random(seed + 77), ['colorblind'], 100 if tier != "thorough" else 1500)
     rnd = random.Random(seed)
     colors = ["ff0000", "00ff00", "0000ff", "ffff00", "ff00ff", "00ffff", "ff8000", "8000ff", "black", "white", "gray",
               "rgba(200,30,90,0.4)", "hsl(123,45%,67%)", "rebeccapurple"]
@@ -1460,6 +1496,7 @@ def c08(res, tier, seed, lib):
 def c02(res, tier, seed, lib):
     """Pipes compose: the non-interactive output of any colour-producing command can be fed to
     another pastel command without a parse error and without moving a channel by more than 3."""
+    modelled_family(res, random.Random(seed + 77), ['color', 'format'], 100 if tier != "thorough" else 1500)
     rnd = random.Random(seed)
     n = 1500 if tier == "thorough" else 160
     producers = [lambda t: ["color", t], lambda t: ["lighten", "0.1", t], lambda t: ["darken", "0.05", t],
@@ -1494,6 +1531,7 @@ def c02(res, tier, seed, lib):
 def c06(res, tier, seed, lib):
     """`pastel set P V C | pastel format P` reads back V (for properties printed by `format`),
     and the output equals the model's `set`."""
+    modelled_family(res, random.Random(seed + 77), ['lighten', 'darken', 'saturate', 'desaturate', 'rotate', 'complement', 'set'], 200 if tier != "thorough" else 3000)
     rnd = random.Random(seed)
     readable = {"hsl-hue": (0, 360, 0.5), "hsl-saturation": (0, 1, 1e-4), "hsl-lightness": (0, 1, 1e-4)}
     colors = [rand_color_text(rnd) for _ in range(20 if tier != "thorough" else 120)]
